@@ -790,6 +790,10 @@ def rule_m13(F):
     if not regs:
         r.missing("the registration of the list built-in `join`")
         return r
+    # .. and the Rust functions behind built-ins that consume a whole list (`String.from_chars(list)`)
+    for p_ in F.paths():
+        if p_.startswith("value::string::RotoString::") and hir.last(p_) in ("from_chars",) and "{closure" not in p_:
+            regs.append({"name": hir.last(p_), "body": p_})
     for g in regs:
         b = F.body(g["body"])
         if b is None or not b.mir:
